@@ -64,7 +64,8 @@ pub open spec fn if_jumps(pre: Compiler, post: Compiler, consequence: Seq<Stmt>,
     let cons_end = block_end(post.log@, k + 1, consequence, pjif + 3);
     let alt = if alternative is Some { alternative->Some_0@ } else { Seq::<Stmt>::empty() };
     &&& 0 <= pjif && pjif + 3 <= code.len() && code[pjif] == byte_jif()
-    &&& exists|pj: int| #![trigger code[pj]] (pj == cons_end || pj == cons_end - 1) && pjif + 3 <= pj && pj + 3 <= code.len()
+    // (the consequence is compiled as a VALUE: its trailing Pop dropped, or a Null appended, or - empty - its one Null)
+    &&& exists|pj: int| #![trigger code[pj]] (pj == cons_end || pj == cons_end - 1 || pj == cons_end + 1) && pjif + 3 <= pj && pj + 3 <= code.len()
             && code[pj] == byte_jump()
             && u16_at(code, pjif + 1) == pj + 3
             && u16_at(code, pj + 1) == code.len()
@@ -79,35 +80,35 @@ impl LoopContext {
     }
 }
 
-/// Expr::If: condition; JumpIfFalse placeholder; consequence; peephole; Jump placeholder; patch; alternative or Null;
-/// peephole; patch  ==> the whole arm behaves like a generator (gen_post).
-pub proof fn lemma_if_gen_post(a: Compiler, s_cond: Compiler, e1: Compiler, s_cons: Compiler, r1: Compiler, e2: Compiler,
-                               s_mid: Compiler, s_alt: Compiler, s_pre: Compiler, fin: Compiler, has_alt: bool)
+/// Expr::If: condition; JumpIfFalse placeholder; consequence as a value; Jump placeholder; patch; alternative as a
+/// value (or the Null that stands for it); patch  ==> the whole arm behaves like a generator (gen_post).
+pub proof fn lemma_if_gen_post(a: Compiler, s_cond: Compiler, e1: Compiler, s_cons: Compiler, e2: Compiler,
+                               s_mid: Compiler, s_pre: Compiler, fin: Compiler, has_alt: bool)
     requires
         gen_post(a, s_cond, true),
         step_appended(s_cond, e1, 3),
-        gen_post(e1, s_cons, true),
-        step_peephole(s_cons, r1),
-        step_appended(r1, e2, 3), e2.last_instruction == Some(OpCode::Jump),
+        gen_post(e1, s_cons, false),
+        step_appended(s_cons, e2, 3), e2.last_instruction == Some(OpCode::Jump),
         step_patched(e2, s_mid, s_cond.instructions@.len() as int),
-        has_alt ==> gen_post(s_mid, s_alt, true) && step_peephole(s_alt, s_pre),
+        has_alt ==> gen_post(s_mid, s_pre, false),
         !has_alt ==> step_appended(s_mid, s_pre, 1),
-        step_patched(s_pre, fin, r1.instructions@.len() as int),
+        step_patched(s_pre, fin, s_cons.instructions@.len() as int),
+        // a block value never ends in a removable Pop / ReturnValue (block_value_post)
+        s_cons.last_instruction is None || s_cons.last_instruction == Some(OpCode::Null),
+        s_pre.last_instruction is None || s_pre.last_instruction == Some(OpCode::Null),
         sym_depth(fin.symbols) == sym_depth(a.symbols), sym_contexts(fin.symbols) == sym_contexts(a.symbols), sym_outer(fin.symbols) == sym_outer(a.symbols),
     ensures gen_post(a, fin, true)
 {
     let nl = a.loop_contexts@.len() as int;
     let pjif = s_cond.instructions@.len() as int;
-    let pj = r1.instructions@.len() as int;
+    let pj = s_cons.instructions@.len() as int;
     // condition, then the JumpIfFalse placeholder
     lemma_step_appended(s_cond, e1, 3);
     lemma_gen_post_trans(a, s_cond, e1, true, true);
-    // consequence, peephole, the Jump placeholder
-    lemma_gen_post_trans(a, e1, s_cons, true, true);
-    if s_cons.last_instruction == Some(OpCode::Pop) { lemma_gen_post_remove_last(a, s_cons, r1, true); }
-    assert(gen_post(a, r1, false));
-    lemma_step_appended(r1, e2, 3);
-    lemma_gen_post_trans(a, r1, e2, false, true);
+    // consequence value, the Jump placeholder
+    lemma_gen_post_trans(a, e1, s_cons, true, false);
+    lemma_step_appended(s_cons, e2, 3);
+    lemma_gen_post_trans(a, s_cons, e2, false, true);
     // pending stops recorded so far lie inside the condition (before pjif) or inside the consequence (from pjif+3,
     // clear of the Jump at pj)
     if nl > 0 {
@@ -125,10 +126,9 @@ pub proof fn lemma_if_gen_post(a: Compiler, s_cond: Compiler, e1: Compiler, s_co
     }
     assert(new_breaks_clear_of(a, e2, pjif));
     lemma_gen_post_patch(a, e2, s_mid, pjif, s_mid.instructions@[pjif + 1], s_mid.instructions@[pjif + 2], false);
-    // alternative (or the Null that stands for it), peephole
+    // alternative value (or the Null that stands for it)
     if has_alt {
-        lemma_gen_post_trans(a, s_mid, s_alt, false, true);
-        if s_alt.last_instruction == Some(OpCode::Pop) { lemma_gen_post_remove_last(a, s_alt, s_pre, false); }
+        lemma_gen_post_trans(a, s_mid, s_pre, false, false);
     } else {
         lemma_step_appended(s_mid, s_pre, 1);
         lemma_gen_post_trans(a, s_mid, s_pre, false, true);
@@ -140,11 +140,11 @@ pub proof fn lemma_if_gen_post(a: Compiler, s_cond: Compiler, e1: Compiler, s_co
         assert(breaks(s_mid, nl - 1) == bk);
         assert forall|j: int| b0.len() <= j < bp.len() implies (#[trigger] bp[j]) + 3 <= pj || pj + 3 <= bp[j] by {
             if j < bk.len() {
-                if has_alt { assert(breaks(s_alt, nl - 1).subrange(0, bk.len() as int)[j] == bk[j]); }
+                if has_alt { assert(bp.subrange(0, bk.len() as int)[j] == bk[j]); }
                 assert(bp[j] == bk[j]);
             } else {
                 assert(has_alt);
-                assert(breaks(s_alt, nl - 1)[j] >= s_mid.instructions@.len());
+                assert(bp[j] >= s_mid.instructions@.len());
             }
         }
     }
@@ -244,12 +244,10 @@ impl Compiler {
             r is Ok ==> gen_post(*old(self), *final(self), true),
     {
 //@GHOST after="self.compile_expression(condition)?;" let ghost s_cond = *self;
-//@GHOST before="self.compile_block_statement(consequence)?;" let ghost e1 = *self;
-//@GHOST after="self.compile_block_statement(consequence)?;" let ghost s_cons = *self;
-//@GHOST before="let pos_jump = self.instructions.len();" let ghost r1 = *self;
+//@GHOST before="self.compile_block_value(consequence)?;" let ghost e1 = *self;
+//@GHOST after="self.compile_block_value(consequence)?;" let ghost s_cons = *self;
 //@GHOST before="self.change_jump_operand_at(pos_jump_if_false, to_u16(self.instructions.len())?);" let ghost e2 = *self;
-//@GHOST after="self.change_jump_operand_at(pos_jump_if_false, to_u16(self.instructions.len())?);" let ghost s_mid = *self; let ghost mut s_alt = *self;
-//@GHOST after="self.compile_block_statement(alternative)?;" proof { s_alt = *self; }
+//@GHOST after="self.change_jump_operand_at(pos_jump_if_false, to_u16(self.instructions.len())?);" let ghost s_mid = *self;
 //@GHOST before="self.change_jump_operand_at(pos_jump, to_u16(self.instructions.len())?);" let ghost s_pre = *self;
 //@ARM file=compiler.rs fn=compile_expression impl=Compiler arm="Expr::If" rules="R1;R4"
         proof {
@@ -268,13 +266,14 @@ impl Compiler {
                 assert forall|j: int| 0 <= j < m implies #[trigger] self.log@[k + 1 + j].what == LogWhat::S(consequence@[j]) by { assert(s_cons.log@[(k + 1) + j].what == LogWhat::S(consequence@[j])); }
                 assert forall|j: int| 0 <= j < m - 1 implies #[trigger] self.log@[k + 1 + j].end == self.log@[k + 1 + j + 1].start by { assert(s_cons.log@[(k + 1) + j].end == s_cons.log@[(k + 1) + j + 1].start); }
             }
-            assert(pj == block_end(self.log@, k + 1, consequence@, pos_jump_if_false as int + 3) || pj == block_end(self.log@, k + 1, consequence@, pos_jump_if_false as int + 3) - 1);
+            assert(pj == block_end(self.log@, k + 1, consequence@, pos_jump_if_false as int + 3) || pj == block_end(self.log@, k + 1, consequence@, pos_jump_if_false as int + 3) - 1
+                || pj == block_end(self.log@, k + 1, consequence@, pos_jump_if_false as int + 3) + 1);
             assert(code[pj] == byte_jump());
             assert(u16_at(code, pos_jump_if_false as int + 1) == pj + 3);
             assert(u16_at(code, pj + 1) == code.len());
 
             // ---- the arm meets the generator contract it assumes of its callees (gen_post) ----
-            lemma_if_gen_post(*old(self), s_cond, e1, s_cons, r1, e2, s_mid, s_alt, s_pre, *self, alternative is Some);
+            lemma_if_gen_post(*old(self), s_cond, e1, s_cons, e2, s_mid, s_pre, *self, alternative is Some);
         }
         Ok(())
     }
@@ -298,7 +297,7 @@ impl Compiler {
 //@GHOST after="self.compile_expression(condition)?;" let ghost s_cond = *self;
 //@GHOST after="let ip = __v[__k];" proof { assert(ip == stops[__k as int]); assert(stop_final(*self, n0, pc, len_final, stops[__k as int] as int)); }
 //@GHOST after="self.emit_opcode(OpCode::Pop);" let ghost s_pre = *self;
-//@GHOST after="self.compile_block_statement(body)?;" let ghost s_body = *self; proof { let m = s_body.loop_contexts@.len() - 1; assert(m == old(self).loop_contexts@.len()); assert(breaks(s_pre, m) == breaks(s_cond, m)); assert(s_pre.instructions@.len() == pos_jump_if_false + 4); assert forall|j: int| 0 <= j < breaks(s_body, m).len() implies stop_ok(s_body, old(self).instructions@.len() as int, pos_jump_if_false as int, #[trigger] breaks(s_body, m)[j] as int) by { let b0 = breaks(s_pre, m); let b1 = breaks(s_body, m); if j < b0.len() { assert(b1.subrange(0, b0.len() as int)[j] == b0[j]); assert(break_ok(s_cond, b0[j] as int)); assert(s_pre.instructions@[b0[j] as int] == s_cond.instructions@[b0[j] as int]); } else { assert(break_ok(s_body, b1[j] as int)); } } assert forall|j: int, k: int| 0 <= j < k < breaks(s_body, m).len() implies #[trigger] breaks(s_body, m)[j] + 3 <= #[trigger] breaks(s_body, m)[k] by { let b0 = breaks(s_pre, m); let b1 = breaks(s_body, m); if j < b0.len() { assert(b1.subrange(0, b0.len() as int)[j] == b0[j]); assert(break_ok(s_cond, b0[j] as int)); if k < b0.len() { assert(b1.subrange(0, b0.len() as int)[k] == b0[k]); } } } }
+//@GHOST after="self.compile_block_value(body)?;" let ghost s_body = *self; proof { let m = s_body.loop_contexts@.len() - 1; assert(m == old(self).loop_contexts@.len()); assert(breaks(s_pre, m) == breaks(s_cond, m)); assert(s_pre.instructions@.len() == pos_jump_if_false + 4); assert forall|j: int| 0 <= j < breaks(s_body, m).len() implies stop_ok(s_body, old(self).instructions@.len() as int, pos_jump_if_false as int, #[trigger] breaks(s_body, m)[j] as int) by { let b0 = breaks(s_pre, m); let b1 = breaks(s_body, m); if j < b0.len() { assert(b1.subrange(0, b0.len() as int)[j] == b0[j]); assert(break_ok(s_cond, b0[j] as int)); assert(s_pre.instructions@[b0[j] as int] == s_cond.instructions@[b0[j] as int]); } else { assert(break_ok(s_body, b1[j] as int)); } } assert forall|j: int, k: int| 0 <= j < k < breaks(s_body, m).len() implies #[trigger] breaks(s_body, m)[j] + 3 <= #[trigger] breaks(s_body, m)[k] by { let b0 = breaks(s_pre, m); let b1 = breaks(s_body, m); if j < b0.len() { assert(b1.subrange(0, b0.len() as int)[j] == b0[j]); assert(break_ok(s_cond, b0[j] as int)); if k < b0.len() { assert(b1.subrange(0, b0.len() as int)[k] == b0[k]); } } } }
 //@GHOST after="self.emit_u16(to_u16(pos_before_condition)?);" let ghost s_jump = *self;
 //@PRELOOP 1 let ghost stops = __v@; let ghost len_final = self.instructions@.len() as int; let ghost n0 = old(self).instructions@.len() as int; let ghost pc = pos_jump_if_false as int; let ghost log_after_body = self.log@; proof { assert(stops == breaks(s_body, s_body.loop_contexts@.len() - 1)); assert(self.loop_contexts@ =~= s_jump.loop_contexts@.drop_last()); assert forall|i: int| 0 <= i < old(self).loop_contexts@.len() implies #[trigger] self.loop_contexts@[i].start == old(self).loop_contexts@[i].start && breaks(*self, i) == breaks(*old(self), i) by { assert(s0.loop_contexts@[i] == old(self).loop_contexts@[i]); assert(s_cond.loop_contexts@[i].start == s0.loop_contexts@[i].start); assert(breaks(s_cond, i) == breaks(s0, i)); assert(s_body.loop_contexts@[i].start == s_pre.loop_contexts@[i].start); assert(breaks(s_body, i) == breaks(s_pre, i)); assert(s_jump.loop_contexts@[i] == s_body.loop_contexts@[i]); } assert forall|j: int| 0 <= j < stops.len() implies stop_final(*self, n0, pc, len_final, #[trigger] stops[j] as int) by { assert(stop_ok(s_body, n0, pc, stops[j] as int)); assert(s_jump.instructions@[stops[j] as int] == s_body.instructions@[stops[j] as int]); }  assert(consts_syms_kept(*old(self), *self)) by { assert(consts_syms_kept(*old(self), s0)); assert(consts_syms_kept(s0, s_cond)); assert(consts_syms_kept(s_cond, s_pre)); assert(consts_syms_kept(s_pre, s_body)); assert(consts_syms_kept(s_body, s_jump)); } }
 //@LOOP 1 invariant __v@ == stops, consts_syms_kept(*old(self), *self), sym_wf(self.symbols), n0 == old(self).instructions@.len(), while_log(*old(self), log_after_body, pc, **condition, body@), self.instructions@.len() == len_final, len_final <= 0xFFFF, same_loops(*self, *old(self)), self.log@ == log_after_body, self.last_instruction == Some(OpCode::Jump), is_prefix(old(self).instructions@, self.instructions@), n0 < pc, pc + 4 <= len_final - 3, self.instructions@[n0] == opcode_byte(OpCode::Null), self.instructions@[pc] == byte_jif(), u16_at(self.instructions@, pc + 1) == len_final, self.instructions@[pc + 3] == opcode_byte(OpCode::Pop), self.instructions@[len_final - 3] == byte_jump(), u16_at(self.instructions@, len_final - 2) == n0 + 1, forall|j: int| 0 <= j < stops.len() ==> stop_final(*self, n0, pc, len_final, #[trigger] stops[j] as int), forall|j: int, k: int| 0 <= j < k < stops.len() ==> #[trigger] stops[j] + 3 <= #[trigger] stops[k], forall|j: int| 0 <= j < __it.index@ ==> u16_at(self.instructions@, #[trigger] stops[j] as int + 1) == len_final,
